@@ -58,7 +58,8 @@ def plan(tier, seed):
                 out.append({"slice": "plain:P4x3", "family": "plain", "osh": osh, "ssh": ssh, "costs": v3 + [(0, 1, 6, 1, 1)],
                             "part": (i, k)})
         out += L.split_plan("ordered:O3x2x2", spaces.shape_pairs(3, 2), o2, 25, {"family": "ordered", "costs": v3[:2]})
-        out += L.split_plan("unordered:U3x2x3", spaces.shape_pairs(3, 2), u3, 25, {"family": "unordered", "costs": v3[:2]})
+        out += L.split_plan("unordered:U3x2x2", spaces.shape_pairs(3, 2), u2, 25, {"family": "unordered", "costs": v3[:2]})
+        out += L.split_plan("unordered:U3x1x3", spaces.shape_pairs(3, 1), u3, 25, {"family": "unordered", "costs": v3[:1]})
         # three and four species leaves, one family: clades at the same depth in different halves of the species tree, so
         # that child order decides which of two tied placements a solver visits first
         out += L.split_plan("unordered:U3x4x1", spaces.shape_pairs(3, 4, min_sp=3), spaces.unordered_syntenies(1), 16,
@@ -126,6 +127,8 @@ NAMINGS = {
     "reversed": lambda t, p: {v: f"{p}{t.n - 1 - v}" for v in range(t.n)},
     "digits": lambda t, p: {v: str((1 if p == "o" else 2) * 1000 + 37 * (t.n - v)) for v in range(t.n)},
     "autolike": lambda t, p: {v: (f"{p.upper()}{(v + 1) % t.n}" if t.children[v] else f"{p}{v}") for v in range(t.n)},
+    # ancestors without a name (legal for library callers; the labelled solvers name them in place on first use)
+    "unnamed": lambda t, p: {v: ("" if t.children[v] else f"{p}{v}") for v in range(t.n)},
 }
 FAMILY_MAPS = {
     "id": {"a": "a", "b": "b", "c": "c", "d": "d"},
@@ -181,11 +184,24 @@ def keys_of(outs, family, pres, O, S, olab, slab, onode, snode):
     return cs, keys
 
 
-def solve(algo, family, pres, twice=False):
+def other_input(inp, S, snode, family):
+    """a different input on the SAME tree objects and the SAME LowestCommonAncestor object: every object leaf moved to
+    the next species leaf (cyclically); syntenies and costs kept"""
+    leaves = list(S.leaves)
+    nxt = {snode[a]: snode[leaves[(i + 1) % len(leaves)]] for i, a in enumerate(leaves)}
+    los = {o: nxt[sp] for o, sp in inp.leaf_object_species.items()}
+    if family == "plain":
+        return type(inp)(inp.object_tree, inp.species_lca, los, dict(inp.costs))
+    return type(inp)(inp.object_tree, inp.species_lca, los, dict(inp.costs), dict(inp.leaf_syntenies))
+
+
+def solve(algo, family, pres, twice=False, after_other=False):
     """-> (min cost or None, list of keys, error)"""
     try:
         inp, O, S, olab, slab, onode, snode = pres.build(family)
         fn = reconcile_thl if algo == "thl" else L.SOLVERS[algo][0]
+        if after_other:
+            list(fn(other_input(inp, S, snode, family), A.POLICY["ALL"]))   # state carried over from another input
         outs = list(fn(inp, A.POLICY["ALL"]))
         if twice:
             outs = list(fn(inp, A.POLICY["ALL"]))   # same input object solved again
@@ -205,7 +221,7 @@ def transformations(onest, snest, costs, family):
     for k in range(n_internal(snest)):
         out.append((f"swap_species_{k}", "same", {"snest": swap_at(snest, k)}))
     out.append(("mirror_both", "same", {"onest": mirror(onest), "snest": mirror(snest)}))
-    for nm in ("reversed", "digits", "autolike"):
+    for nm in ("reversed", "digits", "autolike", "unnamed"):
         out.append((f"rename_nodes_{nm}", "same", {"naming": nm}))
     if family != "plain":
         for fm in ("reverse_sort", "rotate"):
@@ -214,6 +230,9 @@ def transformations(onest, snest, costs, family):
     out.append(("outgroup_left", "outgroup", {"snest": ("X", snest)}))
     out.append(("repeat_same_object", "twice", {}))
     out.append(("repeat_fresh", "same", {}))
+    # another input solved first on the same tree objects and the same LowestCommonAncestor structure
+    out.append(("after_other_input", "after", {}))
+    out.append(("after_other_input_unnamed", "after", {"naming": "unnamed"}))
     for k in (2, 3):
         out.append((f"scale_x{k}", "scale", {"costs": tuple(c * k if c != INF else INF for c in costs), "k": k}))
     for i, nm in enumerate(("spe", "dup", "hgt", "floss", "sloss")):
@@ -244,13 +263,13 @@ def check_input(algo, family, osh, ssh, leafmap, leafsyn, costs, only=None):
         k = kw.pop("k", None)
         p = Pres(kw.get("onest", onest), kw.get("snest", snest), leafmap, leafsyn, kw.get("costs", costs),
                  kw.get("naming", "default"), kw.get("fam", "id"))
-        c1, k1, err = solve(algo, family, p, twice=(kind == "twice"))
+        c1, k1, err = solve(algo, family, p, twice=(kind == "twice"), after_other=(kind == "after"))
         runs += 1
         if err:
             bad.append((name, f"{name}: {err}"))
             continue
         s1 = set(k1)
-        if kind in ("same", "twice"):
+        if kind in ("same", "twice", "after"):
             if c1 != c0:
                 bad.append((name, f"{name}: minimum {c0} -> {c1}"))
             elif s1 != s0 or len(k1) != len(s1):
